@@ -679,12 +679,12 @@ def lean_request(case, u):
         st = case["members"][0]["terms"][0]["state"]
         return dict(base, op="bs", state=real_state(st), outs=case.get("outs", []))
     if kind == "sv":
-        return dict(base, op="sv", terms=lean_members(case, False)[0]["terms"], outs=case["outs"])
+        return dict(base, op="sv", terms=lean_members(case, False)[0]["terms"], outs=case["outs"], cut2=core.rat(CUT2))
     if kind == "svd":
         if case["prec"] == "default":
             return dict(base, op="svd", members=lean_members(case, True), prec=core.rat(DEFAULT_PREC),
-                        minp=core.rat(float(MINP)))
-        return dict(base, op="svd", members=lean_members(case, True), prec="0", minp="0")
+                        minp=core.rat(float(MINP)), bound=True, cut2=core.rat(CUT2))
+        return dict(base, op="svd", members=lean_members(case, True), prec="0", minp="0", cut2=core.rat(CUT2))
     if kind in ("dm", "dm-tagged"):
         nmax = max(sum(len(x) for x in t["state"]) for mb in case["members"] for t in mb["terms"])
         return dict(base, op="dm", members=lean_members(case, True), nmax=nmax)
@@ -830,6 +830,21 @@ def cmp_amps(obs, exact, tol=core.TOL, extra=None, slack=0.0):
 # and an output whose total amplitude is below 1e-6.  The tolerance is widened by precisely these amounts —
 # it stays 1e-9 whenever no such amplitude exists.
 DROP = 1.01e-6
+CUT2 = Fraction(101, 10 ** 8) ** 2      # DROP², handed to the model (`smallC`, `lossAt`)
+
+
+def model_loss(rep_loss, tags, exact_amps):
+    """the model's exactly computed bound on what the native cut can change, per annotated output (`lossAt`: sum of the
+    moduli of the components below the cut, Props/C03 `evolve_cut_bound`), plus an output whose TOTAL amplitude is below
+    the cut (lost when the normalised vector is read)"""
+    out = {}
+    for tup, l in rep_loss:
+        k = key_of_tuple(tags, tup)
+        out[k] = out.get(k, 0.0) + float(Fraction(l)) * 1.001
+    for k, a in exact_amps.items():
+        if abs(a) < DROP:
+            out[k] = out.get(k, 0.0) + abs(a) * 1.001
+    return out
 
 
 def loss_profile(u, m, terms):
@@ -1312,8 +1327,16 @@ def judge_sv(chk, case, rep, sim, circuit, u, record):
     loss, ploc, slack = loss_profile(u, m, terms)
     if loss:
         chk.branch("native-amplitude-cutoff")
+    # the vector `evolve` returns, amplitude by amplitude, against the model's exact amplitudes; what the native cut may
+    # change is bounded by the model (`lossAt`, theorem evolve_cut_bound), not by the Python profile; a unitary circuit
+    # preserves the norm (theorem evolve_preserves_norm): the model's output norm must be the input's
+    if abs(float(Fraction(rep["outNorm2"]) / Fraction(rep["norm2"])) - 1.0) > 1e-9:
+        raise Bad("model-internal", "the evolved vector of the model does not have the norm of the input")
+    mloss = model_loss(rep["loss"], tags, ex_amp)
+    if rep["loss"]:
+        chk.branch("evolve-cut-model-loss")
     ev = sv_to_dict(sim.evolve(build_sv(terms)))
-    d = cmp_amps(ev, ex_amp, extra=loss, slack=slack)
+    d = cmp_amps(ev, ex_amp, extra=mloss, slack=slack)
     if d:
         record("evolve-linear", f"Simulator.evolve({sv}) amplitude of {d[0]} = {d[1]:.9g}, the superposition of the "
                f"evolved terms has {d[2]:.9g}", spec_ok, prop_linear())
@@ -1349,7 +1372,7 @@ def judge_sv(chk, case, rep, sim, circuit, u, record):
     chk.branch("sv-default-precision")
     simd = make_sim(case["engine"], circuit, None)
     evd = sv_to_dict(simd.evolve(build_sv(terms)))
-    d = cmp_amps(evd, ex_amp, DEFAULT_PREC, extra=loss, slack=slack)
+    d = cmp_amps(evd, ex_amp, DEFAULT_PREC, extra=mloss, slack=slack)
     if d:
         record("evolve-linear-default-precision", f"default precision: Simulator.evolve({sv}) amplitude of {d[0]} = "
                f"{d[1]:.9g}, the superposition of the evolved terms has {d[2]:.9g} (differs by more than the precision)",
@@ -1379,6 +1402,95 @@ def judge_sv(chk, case, rep, sim, circuit, u, record):
             record("sv-history", f"after evolving {sv} on the same Simulator, {name}: {build_sv(tt)} gives {d[1]:.9g} at "
                    f"{d[0]}, a fresh Simulator gives {d[2]:.9g}", False, True)
             break
+
+
+def judge_evolve_svd(chk, case, rep, sim, circuit, u, record, spec_ok):
+    """`Simulator.evolve_svd` = the mixture of the members' `evolve`s (Props/C03 `evolveSvd_is_mixture`): every vector of
+    the result is, amplitude by amplitude, the model's exact evolved member (up to the native cut, bounded by the model),
+    with that member's share of the weight; measured, the result gives the exact mixture"""
+    import perceval as pcvl
+    ev = rep.get("ev")
+    if not ev:
+        return
+    m = case["m"]
+    members = case["members"]
+    tags = ev["tags"]
+    chk.branch("evolve-svd")
+    if any(len(mb["terms"]) > 1 for mb in members):
+        chk.branch("evolve-svd-superposed")
+    if any(tags_of(t["state"]) not in ([], [0]) for mb in members for t in mb["terms"]):
+        chk.branch("evolve-svd-tagged")
+    tot = sum(Fraction(mb["w"]) for mb in members)
+    expect = []
+    for mb, mrep in zip(members, ev["members"]):
+        if not mrep["evolve_is_spec"]:
+            raise Bad("model-internal", "evolveSvd member differs from the specification inside the model")
+        n2 = Fraction(mrep["norm2"])
+        if abs(float(Fraction(mrep["outNorm2"]) / n2) - 1.0) > 1e-9:
+            raise Bad("model-internal", "an evolved member of the model does not have the norm of its input")
+        amps = lean_amps(mrep["evolve"], tags, float(n2))
+        if mrep["loss"]:
+            chk.branch("evolve-cut-model-loss")
+        # (the vector is normalised AFTER the cut: what the cut takes from the norm rescales every amplitude — the
+        # member's own probability slack of `loss_profile`, zero when nothing is below the cut)
+        expect.append((amps, float(Fraction(mb["w"]) / tot), model_loss(mrep["loss"], tags, amps),
+                       loss_profile(u, m, mb["terms"])[2] if mrep["loss"] else 0.0))
+    if cmp_dist({k: float(v) for k, v in exact_dist(ev["probs"]).items()}, exact_dist(rep["spec"]), 1e-9) is not None:
+        raise Bad("model-internal", "measuring the model's evolve_svd does not give the specification mixture")
+    ploc, slack = mix_profile(u, m, members)
+
+    def prop_mixture():
+        """the property on the real code: evolve_svd(mixture) = {evolve(member_i): w_i}"""
+        s2 = make_sim(case["engine"], circuit, 0)
+        ref = [(sv_to_dict(s2.evolve(build_sv(mb["terms"]))), float(Fraction(mb["w"]) / tot)) for mb in members]
+        got = make_sim(case["engine"], circuit, 0).evolve_svd(build_svd(members))["results"]
+        got = [(sv_to_dict(sv), float(p)) for sv, p in got.items()]
+        acc = [0.0] * len(got)
+        for amps, w in ref:
+            js = [j for j, (a, _) in enumerate(got) if cmp_amps(a, amps, 1e-8) is None]
+            if not js:
+                return True
+            acc[js[0]] += w
+        return any(abs(a - p) > 1e-8 for a, (_, p) in zip(acc, got))
+
+    r = sim.evolve_svd(build_svd(members))
+    got = [(sv_to_dict(sv), float(p)) for sv, p in r["results"].items()]
+    acc = [0.0] * len(got)
+    for i, (amps, w, loss, msl) in enumerate(expect):
+        js = [j for j, (a, _) in enumerate(got) if cmp_amps(a, amps, extra=loss, slack=msl) is None]
+        if not js:
+            # name the closest vector of the result
+            best = None
+            for a, _ in got:
+                d = cmp_amps(a, amps, extra=loss, slack=msl)
+                dev = abs(d[1] - d[2])
+                if best is None or dev < best[0]:
+                    best = (dev, d)
+            d = best[1] if best else ((), 0j, 0j)
+            record("evolve-svd-member", f"evolve_svd: no vector of the result is the evolved member {i} "
+                   f"({build_sv(members[i]['terms'])}): closest has amplitude {d[1]:.9g} at {d[0]}, evolving the member "
+                   f"gives {d[2]:.9g}", spec_ok, prop_mixture())
+            return
+        acc[js[0]] += w
+    for j, (a, (_, p)) in enumerate(zip(acc, got)):
+        if abs(a - p) > core.TOL + core.TOL * abs(a):
+            record("evolve-svd-weight", f"evolve_svd: vector {j} of the result has weight {p!r}, the members evolving to it "
+                   f"weigh {a!r}", spec_ok, prop_mixture())
+            return
+    if not core.close(float(r["physical_perf"]), float(tot)) or abs(float(r["logical_perf"]) - 1.0) > 2 * core.TOL + 2 * slack:
+        record("evolve-svd-perf", f"evolve_svd: perf ({r['physical_perf']}, {r['logical_perf']}) without any selection "
+               f"(total weight {float(tot)})", False, True)
+        return
+    # measured: ∑_j p_j |amplitude_j(k)|², annotations cleared, against the exact mixture
+    meas = {}
+    for a, p in got:
+        for k, z in a.items():
+            o = key_occ(k, m)
+            meas[o] = meas.get(o, 0.0) + p * abs(z) ** 2
+    d = cmp_dist(meas, exact_dist(rep["spec"]), extra=ploc, slack=slack)
+    if d:
+        record("evolve-svd-mixture", f"measuring evolve_svd's result gives {d[1]!r} at {d[0]}, the weighted sum of the "
+               f"members gives {d[2]!r}", spec_ok, prop_mixture())
 
 
 def trim_bound(case, rep, m):
@@ -1447,6 +1559,7 @@ def judge_svd(chk, case, rep, sim, circuit, u, record):
         whole = bsd_to_dict(make_sim(case["engine"], circuit, 0).probs_svd(build_svd(members))["results"])
         return cmp_float_dist(acc, whole) is not None
 
+    judge_evolve_svd(chk, case, rep, make_sim(case["engine"], circuit, None if default else 0), circuit, u, record, spec_ok)
     r = sim.probs_svd(build_svd(members))
     obs = bsd_to_dict(r["results"])
     ploc, slack = mix_profile(u, m, members) if rep["superposed"] else ({}, 0.0)
@@ -1468,14 +1581,41 @@ def judge_svd(chk, case, rep, sim, circuit, u, record):
     # default precision: members below the threshold are trimmed
     if Fraction(rep["cutMass"]) > 0:
         chk.branch("trim-fires")
-    cut, inner = trim_bound(case, rep, m)
-    chk.count("trim_bound", f"1e{int(math.floor(math.log10(cut + inner + 1e-300)))}")
-    bound = (cut + inner) * 1.01 + core.TOL
-    worst = max([abs(obs.get(k, 0.0) - float(p)) for k, p in exact_full.items()] +
-                [abs(v) for k, v in obs.items() if k not in exact_full] + [0.0])
-    if worst > bound:
-        record("trim-bound", f"default precision: |probs_svd − exact mixture| = {worst:.3g} exceeds the declared bound "
-               f"{bound:.3g} (trimmed input mass {cut:.3g} + threshold slack {inner:.3g})", spec_ok, True)
+    # the proved bound (Props/C03 section 10, `probsSvd_precision_bound`): the driver evaluates its right-hand side
+    # exactly for this input — errNorm[t] = (errAt t + P(t)·errTot) / mass per outcome, tv2 = 2·errTot / mass in total —
+    # and whether the hypotheses of the theorem hold; the model's own result must obey it (else the driver does not
+    # compute what the theorem is about), and the implementation must obey it up to the float tolerance and the
+    # native amplitude cut-off
+    err_norm = exact_dist(rep["errNorm"])
+    err_tot = Fraction(rep["errTot"])
+    tv2 = float(Fraction(rep["tv2"]))
+    if not rep["hyps"]:
+        raise Bad("model-internal", "the hypotheses of probsSvd_precision_bound do not hold for a generated mixture")
+    model_probs = exact_dist(rep["probs"])
+    for k in set(model_probs) | set(exact_full):
+        if abs(model_probs.get(k, 0) - exact_full.get(k, 0)) > err_norm.get(k, 0):
+            raise Bad("model-internal", f"probsSvd_precision_bound is contradicted by the driver's own values at {list(k)}")
+    if sum(abs(model_probs.get(k, 0) - exact_full.get(k, 0)) for k in set(model_probs) | set(exact_full)) > \
+            Fraction(rep["tv2"]):
+        raise Bad("model-internal", "the total-variation bound of probsSvd_precision_bound is contradicted by the driver")
+    if err_tot > 0:
+        chk.branch("prec-theorem-applies")
+        if rep["superposed"] and err_tot > Fraction(rep["trimMass"]):
+            chk.branch("prec-theorem-coherent-loss")
+        if not rep["superposed"] and err_tot > Fraction(rep["trimMass"]):
+            chk.branch("prec-theorem-product-loss")
+        if rep["dropped"]:
+            chk.branch("prec-theorem-trimmed-member")
+    chk.count("proved_bound", f"1e{int(math.floor(math.log10(float(err_tot) + 1e-300)))}")
+    keys = set(obs) | set(exact_full)
+    over = None
+    for k in keys:
+        allowed = float(err_norm.get(k, 0)) + ploc.get(k, 0.0) + 2 * slack + core.TOL + core.TOL * float(exact_full.get(k, 0))
+        dev = abs(obs.get(k, 0.0) - float(exact_full.get(k, 0)))
+        if dev > allowed and (over is None or dev - allowed > over[4]):
+            over = (list(k), obs.get(k, 0.0), float(exact_full.get(k, 0)), allowed, dev - allowed)
+    tv_obs = sum(abs(obs.get(k, 0.0) - float(exact_full.get(k, 0))) for k in keys)
+    tv_allowed = tv2 + 2 * slack + sum(ploc.values()) + core.TOL * (len(keys) + 1)
     # the property itself at the configured precision, evaluated without the Lean model: the result may differ from the
     # weighted sum of the members only by what the precision permits to neglect (`precision_budget`)
     bd, big_d, info = precision_budget(u, m, members)
@@ -1505,6 +1645,15 @@ def judge_svd(chk, case, rep, sim, circuit, u, record):
                f"simulator class; the precision {DEFAULT_PREC:g} accounts for at most {b2[3]:.3g}")
     if why:
         record("precision-exceeded", why, bool(b1), bool(b2))
+    elif over:
+        # beyond the proved bound of the modelled algorithm but within what the precision permits (direct oracle):
+        # model and implementation disagree
+        record("precision-bound", f"default precision: probs_svd[{over[0]}] = {over[1]!r}, the exact mixture gives "
+               f"{over[2]!r}; the bound proved for the model (probsSvd_precision_bound) allows {over[3]:.3g}",
+               False, False)
+    elif tv_obs > tv_allowed:
+        record("precision-bound-tv", f"default precision: ∑|probs_svd − exact mixture| = {tv_obs:.3g} exceeds the proved "
+               f"total bound 2·errTot/mass = {tv_allowed:.3g}", False, False)
     # the model of the trimming itself: input trimming, product thresholds of the fast path and amplitude
     # thresholds of `_merge_sv` on the generic path, emulated exactly
     model = exact_dist(rep["probs"])
@@ -1829,7 +1978,11 @@ def run(chk: core.Check):
                 "(population down to 1e-10, amplitude ≥ 3e-6) in superpositions, in members of mixtures and of density "
                 "matrices, density-matrix members of relative weight down to 1e-9; sessions: one long-lived Simulator answering 3–5 requests of "
                 "different kinds, among them density matrices of one FockBasis populating different basis states; distinct = distinct (kind, m, engine, precision, members, circuit); non-trivial = "
-                "circuit of ≥ 2 components and (≥ 2 tags | ≥ 2 basis states in the input)")
+                "circuit of ≥ 2 components and (≥ 2 tags | ≥ 2 basis states in the input); every default-precision mixture is also "
+                "judged against the PROVED bound of Props/C03 section 10 evaluated exactly by the driver (errNormAt per outcome, "
+                "2·errTot/mass in total, hypotheses of the theorem checked per case); every mixture is also run through "
+                "Simulator.evolve_svd (each vector of the result = an evolved member amplitude by amplitude, weights, perf, the "
+                "measured mixture); Simulator.evolve is judged with the model's bound on the native cut (lossAt)")
     chk.assumptions = [
         "the circuit's matrix is the one compute_unitary() reports (C01/C14); the backends return the boson-sampling "
         "amplitudes of one group of indistinguishable photons (C02)",
@@ -1867,7 +2020,10 @@ def run(chk: core.Check):
                              "gen:session-dm-new-support",
                              "sv-default-precision", "sv-weak-term", "svd-weak-term", "dm-weak-term", "dm-weak-coherent-term", "dm-weak-member",
                              "gen:sv-weak-term", "gen:svd-weak-term", "gen:dm-weak-coherent-term", "gen:dm-weak-member",
-                             "pa-zero", "pa-nonzero", "rejected"]
+                             "pa-zero", "pa-nonzero", "rejected",
+                             "prec-theorem-applies", "prec-theorem-coherent-loss", "prec-theorem-product-loss",
+                             "prec-theorem-trimmed-member", "evolve-svd", "evolve-svd-superposed", "evolve-svd-tagged",
+                             "evolve-cut-model-loss"]
     rng = chk.rng
     n_lean = chk.pick(4, 8)
     drivers = [core.LeanDriver("C03") for _ in range(n_lean)]
